@@ -17,6 +17,8 @@ def client_nontrivial(tok, res):
         return res != "cfg=;run="
     if op == "race":
         return "*" in res
+    if op == "wake":
+        return res.startswith("w=") and not res.startswith("w=-")
     return op in ("live", "livebackoff")
 
 
@@ -120,8 +122,8 @@ def health_nontrivial(tok, res):
 
 PROP = {
         "level": "proof",
-        "gens": ["SessFacts"],
-        "extra_targets": ["Frp.Props.C19Visitors", "Frp.Props.C19Reload", "Frp.Props.C19Ctl"],
+        "gens": ["SessFacts", "C19Facts"],
+        "extra_targets": ["Frp.Props.C19Visitors", "Frp.Props.C19Reload", "Frp.Props.C19Ctl", "Frp.Props.C19Sched", "Frp.Props.C19Keeper"],
         "theorems": [
             "Frp.C19.health_consecutive_witness",
             "Frp.C19.health_not_ConsecutiveFull",
@@ -257,6 +259,28 @@ PROP = {
             "Frp.C19.converge_registers",
             "Frp.C19.converge_unhealthy_withdrawn",
             "Frp.C19.remove_releases",
+            # round 5: the worker's decisions read from the source (Gen/C19Facts.lean), Stop overtaking a woken worker
+            # (Props/C19Sched.lean)
+            "Frp.C19.source_phase_order",
+            "Frp.C19.wantsStart_eq_source",
+            "Frp.C19.source_register_phases",
+            "Frp.C19.withdraw_eq_source",
+            "Frp.C19.source_worker_writes",
+            "Frp.C19.closed_tick_silent",
+            "Frp.C19.wake_stop_schedule_wire",
+            "Frp.C19.conc_woken_worker_after_stop",
+            "Frp.C19.noNewAfterLastClose_of_tail",
+            # round 5: the visitor manager's keeper goroutine as state (Model/VisitorKeeper.lean, Props/C19Keeper.lean)
+            "Frp.C19.keeper_source_shape",
+            "Frp.C19.keeper_exits_only_on_stop",
+            "Frp.C19.keeper_inv_init",
+            "Frp.C19.keeper_inv_step",
+            "Frp.C19.keeper_inv_run",
+            "Frp.C19.keeper_alive",
+            "Frp.C19.keeper_tick_settles",
+            "Frp.C19.keeper_obstacle_gone_running",
+            "Frp.C19.keeper_exit_on_empty_witness",
+            "Frp.C19.keeper_empty_episode_code",
         ],
         "engines": [
             {"name": "health", "quick_n": 2200, "thorough_n": 9000, "thorough_seeds": 4,
@@ -290,6 +314,12 @@ PROP = {
                 "non-trivial = the op produced a message, a status "
                 "change, a hand-over or hit a stopped wrapper; for `race` (two overlapping operations, the first one held in the "
                 "transporter at the hand-over of its NewProxy/CloseProxy) non-trivial = a message was actually held. "
+                "`wake` (the worker has left its select - status-check timer, health notification, monitor callback - but has not "
+                "taken pw.mu yet when a reload / Manager.Close stops, changes or keeps the wrapper; the harness holds pw.mu, queues "
+                "Stop() and the worker's Lock() behind it in either order and lets go; wrapper phases new / wait start before and past "
+                "its deadline / start error before and past its back-off / running / check failed): non-trivial = a message went "
+                "out; the clauses evaluated on the implementation's wire: a wrapper taken out of the manager reports closed and "
+                "after the last CloseProxy of its name at most the one NewProxy of a re-configured name follows. "
                 "`live`: real time, real monitor, the same text loaded again while wrapper, monitor and proxy run. "
                 "vmgr engine: reload / squat / free / tick / Close / Close-overtaking-a-loop-iteration / TransferConn histories against the real visitor.Manager with "
                 "real stcp / xtcp / sudp visitors binding 5 loopback addresses (tcp and udp, two IPs) which the harness takes and "
@@ -297,7 +327,10 @@ PROP = {
                 "reloads add / remove / reorder / duplicate / change exactly one field, often of an entry whose Run() failed at "
                 "load, and go through the real loader from text that leaves bindAddr and xtcp's protocol / maxRetriesAnHour / "
                 "minRetryInterval / fallbackTimeoutMs out (entries with a harness plugin are built in place, fresh objects as well); "
-                "every op ends after a complete pass of the real keep-alive loop; non-trivial = something is configured. "
+                "the manager gets exactly the configured list - also the EMPTY one, with episodes `nothing configured for one to three "
+                "ticks, then entries mostly on an address that is taken at that moment, which is released afterwards` -; "
+                "every op ends after a complete pass of the real keep-alive loop (observed through vm.mu, which the pass needs) "
+                "or reports that the keeper goroutine is gone; non-trivial = something is configured. "
                 "svc engine: whole service lives (start from a configuration file, reloads through PUT /api/config + GET "
                 "/api/reload - also of a file that does not parse -, GET /api/status after every op, GET /api/config, POST "
                 "/api/stop) against an in-process scripted "
@@ -325,8 +358,15 @@ PROP = {
             "the harness (eng_client_fields.go, eng_vmgr.go: canonical = fields a type does not have are 0)",
             "vmgr: visitor.Manager.checkInterval (10 s, no setter) is overwritten once through reflect/unsafe right after "
             "NewManager; vm.mu and vm.visitors are read the same way (object identity of visitors); a pass of the keep-alive "
-            "loop is observed through a permanently failing sentinel visitor (its plugin creator counts) that the harness adds "
-            "to every list, so the loop is always running",
+            "loop is observed through vm.mu: the harness takes it, waits until the keeper goroutine's next tick is blocked in "
+            "Lock() (runtime.Stack), releases it and waits until the goroutine is back in its select; the goroutine counts as "
+            "gone when no goroutine with a keepVisitorsRunning frame shows for 10 ms",
+            "client op wake: pw.mu of a Wrapper is taken through reflect/unsafe; `blocked in Lock()` of (*Wrapper).Stop and "
+            "(*Wrapper).checkWorker is read from runtime.Stack; sync.Mutex serves blocked callers in arrival order (if it does "
+            "not, the other order's answer is accepted as such)",
+            "translate/gen_c19facts.go: a small interpreter over go/ast evaluates checkWorker's two conditions (through helper "
+            "methods, switch on pw.Phase, if chains) per phase constant and deadline outcome, and lists every exit statement "
+            "of keepVisitorsRunning's loop with its guards",
             "configuration text: harness/eng_c19_load.go renders an entry by marshalling the un-Complete()d structure and pruning "
             "zero / empty members, the loader is frp's own (config.LoadClientConfig, validation.ValidateAllClientConfig); `stored object "
             "intact` = reflect.DeepEqual with a second load of the same file",
@@ -352,10 +392,12 @@ PROP = {
             "TCP probes: only up/down/up with a real listener (htcp); the counting logic is exercised through HTTP probes",
             "goroutine interleavings inside one wrapper are proved for ALL schedules on the small-step model WrapperConc "
             "(statement granularity: lock, phase write, hand-over to pw.handler, unlock); on the real code they are driven at the "
-            "one point reachable without touching frp — a gate in the harness' MessageTransporter that holds the first "
+            "two points reachable without touching frp — a gate in the harness' MessageTransporter that holds the first "
             "NewProxy/CloseProxy of an operation just before it is on the wire while a second operation runs until it has "
-            "finished or its goroutine is blocked (runtime.Stack); other preemption points (between Lock() and the phase test, "
-            "between two statements that do not call the handler) are not driven, InWorkConn/GetStatus are not in the small-step model",
+            "finished or its goroutine is blocked (runtime.Stack), and pw.mu itself, held by the harness while Stop() and the "
+            "woken worker queue up for it (op wake: the preemption point between the worker's wake-up / health load and its "
+            "Lock()); other preemption points (between two statements inside a critical section that do not call the "
+            "handler) are not driven, InWorkConn/GetStatus are not in the small-step model",
             "two KNOWN findings of the unchanged tree, both in client/visitor/visitor_manager.go, both reproduced by the vmgr "
             "engine as prop=FAILS and suppressed by their signatures in KNOWN_FINDINGS.json (C19-visitor-dup-name-restarts: "
             "UpdateAll stores the FIRST and compares with the LAST entry of a duplicated name, every later reload restarts the "
@@ -382,7 +424,8 @@ PROP = {
             "a pass that runs after Close (stopCh and the ticker both ready) is followed by the model the same way and then "
             "judged by the clause `a closed manager holds no address` (known finding above); the states between two "
             "passes of the loop are covered by the theorems (every tryStart / squat / free interleaving), the engine observes "
-            "pass-stable states only",
+            "pass-stable states only; the keeper's period is 1.5 ms in the engine, so `nothing configured for at least one "
+            "tick` is one op",
             "svc: visitors at service level are observed only through their bind ports, with distinct names and ports, and "
             "during an outage the generated reloads only remove visitors (a visitor the dead control starts during the outage "
             "holds its address until the swap, the new manager then waits for its next keep-alive pass, checkInterval = 10 s: "
@@ -395,8 +438,9 @@ PROP = {
 META = {
         "engine": "lean+harness(health,client,vmgr,svc,ctlreg)",
         "design_ref": "DESIGN.md §6 C19, §7 item 8",
-        "technique": "Lean 4 models of health counting, wrapper phase machine (atomic and small-step with pw.mu), reload diff, visitor "
-                     "manager with its keep-alive loop and bind addresses, (C14's) service re-login, and the Control's reply handler with the "
+        "technique": "Lean 4 models of health counting, wrapper phase machine (atomic and small-step with pw.mu; the worker's two "
+                     "decisions regenerated from the source), reload diff, visitor "
+                     "manager with its keep-alive loop, the keeper goroutine and its Once as state, and bind addresses, (C14's) service re-login, and the Control's reply handler with the "
                      "server's table and every reply schedule; "
                      "theorems by induction over all probe histories / event sequences / reloads / goroutine schedules / keep-alive "
                      "iterations / session histories; differential "
@@ -415,7 +459,10 @@ META = {
                 "SetRunningStatus and the monitor callbacks is a sequential run of that machine in lock order (conc_refines), hence on "
                 "the wire nothing but CloseProxy follows once Stop has written closed (conc_no_newProxy_after_stop) and the last message "
                 "agrees with the status at every quiescent point (conc_sync); the variant that unlocks before handing NewProxy over "
-                "violates both (earlyUnlock_witness). Reload: running names = "
+                "violates both (earlyUnlock_witness); the condition under which an iteration registers is read from the source on "
+                "every run - exactly new, check failed, wait start past its deadline, start error past its back-off, never closed "
+                "(wantsStart_eq_source, source_register_phases) - and the schedule in which Stop overtakes a worker that has "
+                "already left its select is driven on the real Wrapper (wake_stop_schedule_wire, conc_woken_worker_after_stop). Reload: running names = "
                 "configured names, unchanged entries keep the same wrapper object with no message, removed/changed ones get exactly "
                 "one CloseProxy, added ones exactly one NewProxy (none if health-gated), every running wrapper carries the configured "
                 "(last) entry of its name, and reloading the loaded configuration is a no-op for EVERY configuration list "
@@ -426,7 +473,11 @@ META = {
                 "stored entry and every visitor's configuration is an entry of the loaded list (a removed visitor is never started "
                 "again, a changed one runs the new entry), unchanged visitors are the same object, changed ones are closed, and a "
                 "complete pass of the loop in any order leaves every entry running or unstartable (vm_history_configured, "
-                "vm_history_running, vm_pass_complete). Stored configuration: no event of a wrapper's life other than a reload "
+                "vm_history_running, vm_pass_complete); the keeper goroutine is alive in every reachable state of a manager that "
+                "has loaded a visitor and is not closed - its loop has no exit but the stop channel (keeper_source_shape, read from "
+                "the source) - so after ANY history, including reloads to zero visitors and back, the next tick leaves every "
+                "configured entry running or unstartable (keeper_alive, keeper_tick_settles; a loop that ends when nothing is "
+                "configured breaks it: keeper_exit_on_empty_witness). Stored configuration: no event of a wrapper's life other than a reload "
                 "changes the configuration object the next reload is compared with, hence the loaded list loaded again is silent "
                 "after ANY history, not only right after the load (stored_immutable, reload_silent_after_history; on the real code "
                 "every reload comes from text through the real loader, with defaulted members left out). Two open findings in "
@@ -453,6 +504,6 @@ META = {
                 "duplicated answer (closing_glue_witness).",
         "note": "Trusted: Lean kernel; the hand-written models and the correspondence harness. Not covered: real-time behaviour beyond "
                 "two scenarios, TCP probe timeouts, preemption points of the wrapper other than the "
-                "hand-over of a message to the transporter, visitors added or changed during an outage at service level, wall-clock period of the "
+                "hand-over of a message to the transporter and the worker's Lock(), visitors added or changed during an outage at service level, wall-clock period of the "
                 "visitor keep-alive loop (10 s in production, 1.5 ms in the engine).",
     }
